@@ -938,3 +938,47 @@ def set_order_rule(fi, rule="SET-ORDER"):
                              "(`sorted(..)` or a list keeps it defined)" % hit[1], s))
             break
     return out
+
+
+# ------------------------------------------------------------------ IDENTITY-KEY: memory addresses are not content
+def identity_key_rule(fi, rule="STATE"):
+    """`t.data_ptr()` is the address of the first element of a tensor's storage view and `id(x)` the address of an object: two different
+    views that start at the same element (X[i, :, s:e] and X[i, :, s:e2]), or an object allocated where a dead one used to be, have the
+    same value.  Used as a dictionary key / membership test (a memo) they make one input stand in for another.  Only emitted when such a
+    key exists."""
+    from .core import named
+    role = "no cache / dictionary is keyed by a memory address (data_ptr(), id())"
+    pm = parent_map(fi.node)
+    for n in ast.walk(fi.node):
+        is_addr = isinstance(n, ast.Call) and ((isinstance(n.func, ast.Attribute) and n.func.attr == "data_ptr" and not n.args) or
+                                              (isinstance(n.func, ast.Name) and n.func.id == "id" and len(n.args) == 1))
+        if not is_addr:
+            continue
+        x = n
+        keyed = False
+        while x in pm and not isinstance(pm[x], ast.stmt):
+            par = pm[x]
+            if isinstance(par, ast.Subscript) and par.slice is x or (isinstance(par, ast.Subscript) and isinstance(par.slice, ast.Tuple) and any(e is x for e in par.slice.elts)):
+                keyed = True
+            if isinstance(par, ast.Compare) and any(isinstance(o, (ast.In, ast.NotIn)) for o in par.ops):
+                keyed = True
+            if isinstance(par, ast.Call) and isinstance(par.func, ast.Attribute) and par.func.attr in ("get", "setdefault", "pop", "add", "__contains__") and x in par.args:
+                keyed = True
+            if isinstance(par, ast.Dict) and x in par.keys:
+                keyed = True
+            x = par
+        if not keyed:
+            # key = t.data_ptr() ; cache[key]
+            s = n
+            while not isinstance(s, ast.stmt):
+                s = pm[s]
+            if isinstance(s, ast.Assign) and len(s.targets) == 1 and isinstance(s.targets[0], ast.Name):
+                k = s.targets[0].id
+                keyed = any(isinstance(y, ast.Subscript) and any(isinstance(z, ast.Name) and z.id == k for z in ast.walk(y.slice)) for y in ast.walk(fi.node))
+        if keyed:
+            s = n
+            while not isinstance(s, ast.stmt):
+                s = pm[s]
+            return [named(rule, fi, role, "`%s` is used as a key: it identifies where a value starts in memory, not the value (two slices of one row that begin "
+                          "at the same position, or a new object at a recycled address, share it)" % unparse(n)[:40], s)]
+    return []
